@@ -95,7 +95,11 @@ impl PanicInfo {
     /// location with the /repo prefix and the line number stripped
     pub fn file(&self) -> String {
         let f = self.loc.rsplit_once(':').map(|x| x.0).unwrap_or(&self.loc);
-        f.trim_start_matches("/repo/").to_string()
+        // also normalises scratch worktrees (`/tmp/.../repo/arrow-x/...`)
+        match f.rfind("/repo/") {
+            Some(i) => f[i + 6..].to_string(),
+            None => f.to_string(),
+        }
     }
 }
 
